@@ -54,7 +54,7 @@ type c20Case struct {
 }
 
 func C20(c *core.Ctx) {
-	c.Rule = "scripted wrapped getters (fail k times then succeed, or forever; each attempt takes a fixed time) under a grid of Timeout / MaxRetryDelay settings including zero, run on the real clock with small durations (and one uncapped 4 s / 8 s run in the thorough tier; runs of 70 to 150 consecutive failures under a 2-3 ms cap); observed: response, number of calls, gaps between calls, elapsed time, with tolerances of 60 ms; the model's outcome and call count are compared where the timing margins are wide (>= 40 ms). non-trivial = at least one failed attempt (a wait or a timeout decision is exercised); distinct = distinct settings"
+	c.Rule = "scripted wrapped getters (fail k times then succeed, or forever; each attempt takes a fixed time) under a grid of Timeout / MaxRetryDelay settings including zero, run on the real clock with small durations (and one uncapped 4 s / 8 s run in the thorough tier; runs of 70 to 150 consecutive failures under a 2-3 ms cap); observed: response, number of calls, gaps between calls, elapsed time, with tolerances of 60 ms (an outcome that rests on an upper time bound is re-measured alone up to three times and reported only if it persists); the model's outcome and call count are compared where the timing margins are wide (>= 40 ms). non-trivial = at least one failed attempt (a wait or a timeout decision is exercised); distinct = distinct settings"
 	tol := 60 * time.Millisecond
 	ms := time.Millisecond
 	cases := []c20Case{
@@ -89,53 +89,40 @@ func C20(c *core.Ctx) {
 		pan     any
 		elapsed time.Duration
 	}
-	var wg sync.WaitGroup
-	results := make([]*result, len(cases))
-	for i, cs := range cases {
-		if cs.thorough && !c.Thorough() {
-			continue
-		}
-		i, cs := i, cs
-		wg.Add(1)
+	runOne := func(i int, cs c20Case) *result {
+		sg := &scriptedGetter{failures: cs.failures, g: cs.g, header: map[string][]string{"X-Test": {"a", "b"}, "Tcb-Info-Issuer-Chain": {"v"}}, body: []byte(fmt.Sprintf("body-%d", i))}
+		rg := &trust.RetryHTTPSGetter{Timeout: cs.timeout, MaxRetryDelay: cs.max, Getter: sg}
+		res := &result{cs: cs, g: sg}
+		done := make(chan struct{})
+		sg.t0 = time.Now()
 		go func() {
-			defer wg.Done()
-			sg := &scriptedGetter{failures: cs.failures, g: cs.g, header: map[string][]string{"X-Test": {"a", "b"}, "Tcb-Info-Issuer-Chain": {"v"}}, body: []byte(fmt.Sprintf("body-%d", i))}
-			rg := &trust.RetryHTTPSGetter{Timeout: cs.timeout, MaxRetryDelay: cs.max, Getter: sg}
-			res := &result{cs: cs, g: sg}
-			done := make(chan struct{})
-			sg.t0 = time.Now()
-			go func() {
-				defer close(done)
-				defer func() { res.pan = recover() }()
-				res.hdr, res.body, res.err = rg.Get("https://example.invalid/x")
-			}()
-			limit := cs.timeout + cs.max + 3*time.Second
-			if limit < 3*time.Second {
-				limit = 3 * time.Second
-			}
-			select {
-			case <-done:
-			case <-time.After(limit):
-				res.pan = "did not return (hang)"
-			}
-			res.elapsed = time.Since(sg.t0)
-			results[i] = res
+			defer close(done)
+			defer func() { res.pan = recover() }()
+			res.hdr, res.body, res.err = rg.Get("https://example.invalid/x")
 		}()
-	}
-	wg.Wait()
-	for i, res := range results {
-		cs := cases[i]
-		if res == nil {
-			continue
+		limit := cs.timeout + cs.max + 3*time.Second
+		if limit < 3*time.Second {
+			limit = 3 * time.Second
 		}
+		select {
+		case <-done:
+		case <-time.After(limit):
+			res.pan = "did not return (hang)"
+		}
+		res.elapsed = time.Since(sg.t0)
+		return res
+	}
+	// judge evaluates one run: ground-truth message, known-finding signature, whether the message
+	// rests on an upper time bound (which scheduling noise on a loaded machine can break), the
+	// gaps between calls and the number of calls
+	judge := func(cs c20Case, res *result) (gt, sig string, noisy bool, gaps []time.Duration, calls int) {
 		sg := res.g
 		sg.mu.Lock()
-		calls := len(sg.starts)
-		gt, sig := "", ""
-		var gaps []time.Duration
+		calls = len(sg.starts)
 		for k := 1; k < len(sg.starts) && k-1 < len(sg.ends); k++ {
 			gaps = append(gaps, sg.starts[k]-sg.ends[k-1])
 		}
+		ends := append([]time.Duration{}, sg.ends...)
 		sg.mu.Unlock()
 		switch {
 		case res.pan != nil:
@@ -154,24 +141,24 @@ func C20(c *core.Ctx) {
 				bound = 0
 			}
 			if res.elapsed > bound+maxDur(cs.max, 0)+cs.g+tol {
-				gt = fmt.Sprintf("gave up after %v, later than timeout %v + one retry delay %v + one attempt", res.elapsed, cs.timeout, cs.max)
+				gt, noisy = fmt.Sprintf("gave up after %v, later than timeout %v + one retry delay %v + one attempt", res.elapsed, cs.timeout, cs.max), true
 			}
 		}
-		if gt == "" && res.err != nil && calls > 0 && len(sg.ends) == calls {
+		if gt == "" && res.err != nil && calls > 0 && len(ends) == calls {
 			// the wait that the deadline cut short is a wait too
-			if last := res.elapsed - sg.ends[calls-1]; last > maxDur(cs.max, 0)+tol {
-				gt = fmt.Sprintf("the last wait lasted %v, longer than the maximum retry delay %v", last, cs.max)
+			if last := res.elapsed - ends[calls-1]; last > maxDur(cs.max, 0)+tol {
+				gt, noisy = fmt.Sprintf("the last wait lasted %v, longer than the maximum retry delay %v", last, cs.max), true
 			}
 		}
 		if gt == "" {
 			for k, gp := range gaps {
 				if gp > maxDur(cs.max, 0)+tol {
-					gt = fmt.Sprintf("wait %d lasted %v, longer than the maximum retry delay %v", k, gp, cs.max)
+					gt, noisy = fmt.Sprintf("wait %d lasted %v, longer than the maximum retry delay %v", k, gp, cs.max), true
 				}
 				// time.After never fires early, so a completed wait shorter than half the cap (the
 				// doubling delay starts at 4 s, above every cap used here) was not a wait of the cap
 				if cs.max > 0 && cs.max <= 4*time.Second && gp < cs.max/2 {
-					gt = fmt.Sprintf("wait %d lasted only %v with a maximum retry delay of %v", k, gp, cs.max)
+					gt, noisy = fmt.Sprintf("wait %d lasted only %v with a maximum retry delay of %v", k, gp, cs.max), false
 				}
 			}
 			if gt == "" && cs.max <= 0 && len(gaps) > 0 {
@@ -187,6 +174,41 @@ func C20(c *core.Ctx) {
 				}
 			}
 		}
+		// the call count that the model predicts under wide margins is a timing statement as well
+		if gt == "" && cs.wantCalls > 0 && calls != cs.wantCalls {
+			noisy = true
+		}
+		return
+	}
+	var wg sync.WaitGroup
+	results := make([]*result, len(cases))
+	for i, cs := range cases {
+		if cs.thorough && !c.Thorough() {
+			continue
+		}
+		i, cs := i, cs
+		wg.Add(1)
+		go func() {
+			defer wg.Done()
+			results[i] = runOne(i, cs)
+		}()
+	}
+	wg.Wait()
+	for i, res := range results {
+		cs := cases[i]
+		if res == nil {
+			continue
+		}
+		gt, sig, noisy, gaps, calls := judge(cs, res)
+		// an outcome that rests on an upper time bound is re-measured alone (no other case running):
+		// only what persists is reported
+		reruns := 0
+		for noisy && reruns < 3 {
+			reruns++
+			res = runOne(i, cs)
+			gt, sig, noisy, gaps, calls = judge(cs, res)
+		}
+		sg := res.g
 		// model comparison on outcome and call count where the margins are wide
 		outcome := core.Ls(core.A(1))
 		if res.err == nil {
@@ -205,7 +227,7 @@ func C20(c *core.Ctx) {
 			attempts = append(attempts, core.Ls(durS(cs.g), core.Ls(core.Bs(sg.body))))
 		}
 		input := core.Ls(core.Ls(attempts...), durS(0), durS(cs.timeout), durS(cs.max), core.Ls())
-		cse := &core.Case{Class: "retry", Desc: fmt.Sprintf("%s: calls=%d err=%v elapsed=%v gaps=%v", cs.name, calls, res.err != nil, res.elapsed.Round(time.Millisecond), roundAll(gaps)),
+		cse := &core.Case{Class: "retry", Desc: fmt.Sprintf("%s: calls=%d err=%v elapsed=%v gaps=%v reruns=%d", cs.name, calls, res.err != nil, res.elapsed.Round(time.Millisecond), roundAll(gaps), reruns),
 			Entry: "retry", Input: input, Impl: impl, GT: gt, Signature: sig, NonTrivial: cs.failures != 0}
 		if cs.wantCalls == 0 || gt != "" {
 			cse.SkipModel = true
